@@ -24,7 +24,7 @@ Gen == [accts |-> Accts,
         bcn |-> [feeReg |-> 20, feeRec |-> 1, feePur |-> 5, denom |-> "nund", def |-> 2, max |-> 4, startId |-> 1],
         str |-> [feeNum |-> 1, feeDen |-> 100]]
 
-Init == st = StateOf(Gen) /\ phase = "idle" /\ hist = <<[a |-> "InitChain", g |-> Gen]>> /\ nTx = 0 /\ nFail = 0
+Init == st = StateOf(Gen) /\ phase = "idle" /\ hist = <<[a |-> "InitChain", g |-> Gen]>> /\ nTx = 0 /\ nFail = 0 /\ GoalRegsInit
 
 GovTx(p) == GovTxFor(st, "ent", p)
 
@@ -32,14 +32,18 @@ TxAlphabet ==
      { Tx(<<[t |-> "Raise", pur |-> a, amt |-> n, denom |-> "nund"]>>) : a \in AcctSet, n \in {3, 5} }
   \cup { Tx(<<[t |-> "Decide", signer |-> a, id |-> i, d |-> d]>>) : a \in AcctSet, i \in 1..MaxPo, d \in {"accept", "reject"} }
   \cup { Tx(<<[t |-> "Whitelist", signer |-> a, addr |-> b, act |-> c]>>) : a \in {"A1", "A3"}, b \in {"A3", "A4"}, c \in {"add", "remove"} }
+  \* an order raised inside a transaction that is rolled back (the id stays free)
+  \cup { Tx(<<[t |-> "Raise", pur |-> "A3", amt |-> 5, denom |-> "nund"], [t |-> "Raise", pur |-> "A3", amt |-> 3, denom |-> "nund"], [t |-> "Raise", pur |-> "A3", amt |-> 3, denom |-> "foo"]>>) }
   \cup { GovTx(Presets[i]) : i \in DOMAIN Presets }
 
+\* the rolled-back creation scripts (three messages) do not use up the ration of failing transactions
+Scripted(ev) == Len(ev.msgs) >= 3
 Do(ev, ph) ==
   LET r == Step(st, ev) IN
   /\ st' = r.st /\ hist' = Append(hist, ev) /\ phase' = ph
   /\ IF ev.a = "DeliverTx"
-     THEN /\ nTx' = nTx + 1 /\ nFail' = IF r.ok THEN nFail ELSE nFail + 1
-          /\ (r.ok \/ nFail < MaxFail)
+     THEN /\ nTx' = nTx + 1 /\ nFail' = IF r.ok \/ Scripted(ev) THEN nFail ELSE nFail + 1
+          /\ (r.ok \/ Scripted(ev) \/ nFail < MaxFail)
      ELSE UNCHANGED <<nTx, nFail>>
 
 Next ==
@@ -79,5 +83,7 @@ W_Rejected  == ~\E i \in DOMAIN st.ent.po : st.ent.po[i].st = "rejected"
 W_ParamChanged == st.ent.p = StateOf(Gen).ent.p
 
 \* schedule emission (simulation mode): print the behaviour when it cannot be extended
+\* coverage goals: print the behaviours that exercise the rare situations of Goals.tla (every explored transition)
+GoalEmit == [][ GoalStep(st, hist, st', hist') ]_vars
 Emit == phase = "done" => PrintT(<<"TRACE", ToJson(hist)>>)
 =============================================================================
